@@ -4,7 +4,7 @@ evaluates from the same module."""
 import json, os, subprocess, time, re
 from vlib import *
 
-FULL = {"aligns": "{1,2,4,8,16,32,64}", "maxsize": 64, "maxlen": 4}
+FULL = {"aligns": "{1,2,4,8,16,32,64,128,4096}", "maxsize": 64, "maxlen": 4}
 SMALL = {"aligns": "{1,2,4,8,16,32,64}", "maxsize": 32, "maxlen": 3}
 
 
